@@ -56,6 +56,8 @@ RESP_BODIES = {
     "text-utf8": ("h\u00e9llo w\u00f6rld \u2713\n".encode(), [("Content-Type", "text/plain; charset=utf-8")]),
     "latin1-charset": ("caf\u00e9 na\u00efve \u00fc\n".encode("latin-1"), [("Content-Type", "text/html; charset=iso-8859-1")]),
     "binary": (bytes(range(256)) + b"\x00\x01\x02\xff" * 8, [("Content-Type", "application/octet-stream")]),
+    # mostly non-printable bytes: exported base64-encoded (strutils.is_mostly_bin)
+    "binary-base64": (b"\x89PNG\r\n\x1a\n\x00\x00\x00\rIHDR" + b"\x00\x01\x02\x03\xff\xfe\x80\x90" * 20, [("Content-Type", "image/png")]),
     "gzip-coded": ("compressed t\u00e9xt body\n".encode() * 3, [("Content-Type", "text/plain; charset=utf-8"), ("Content-Encoding", "gzip")]),
     "br-coded": ("brotli t\u00e9xt body\n".encode() * 3, [("Content-Type", "application/json"), ("Content-Encoding", "br")]),
 }
@@ -152,6 +154,8 @@ def run(X, cfgs):
         har, back = export_import(flows)
     except exceptions.FlowReadException as e:
         X.fail("C41/import-error", f"{e} (cause: {e.__context__!r}) cfgs={cfgs}")
+    if b'"encoding": "base64"' in har:
+        X.reach("base64-export")
     X.check(len(back) == len(flows), "C41/count", f"{len(back)} flows imported, {len(flows)} exported")
     # order: the i-th imported flow is compared with the i-th exported flow
     for i, (f, g, c) in enumerate(zip(flows, back, cfgs)):
@@ -216,7 +220,7 @@ def obligations(tier):
         Symx("response-side", lambda X: h_response_side(X, STATUS),
              bounds=f"version {VERSIONS} x status {STATUS} x response body {list(RESP_BODIES)} x every sequence of <=2 extra response header fields from {RESP_FIELDS} "
                     "(duplicates included); request fixed (GET http://example.com/)",
-             encoded=ENCODED, must_reach=["end"], parallel_depth=3),
+             encoded=ENCODED, must_reach=["end", "base64-export"], parallel_depth=3),
         Symx("flow-order", h_two_flows,
              bounds=f"1-2 flows per file, each: GET without body / POST with text body x status [200,404] x response body {list(RESP_BODIES)} (flow i uses URL i); "
                     "the i-th imported flow must equal the i-th exported flow",
